@@ -91,6 +91,8 @@ def recv_path(v) -> str:
             return f"{recv_path(a[0])}[{key}]"
         if k == "param":
             return a[0]
+        if k == "nonempty":
+            return a[0]
         if k == "call":
             head = a[0] if isinstance(a[0], str) else show(a[0])
             if head == "cast" and len(a) >= 3:
